@@ -6,7 +6,8 @@ EXTENDS Malformed, Diff, Json, IOUtils
 Traces == ndJsonDeserialize(IOEnv.TRACE_FILE)
 ProbeExpected == ParseDoc(Traces[1].probe, FALSE)      \* the probe document is the same in every record
 Verdict(e) ==
-  IF ~ProvablyInvalid(e.fault, e.site) THEN "out-of-domain"
+  \* with arbitrary properties enabled, `[key: 'text']` in a column's settings IS a declaration: that one fault is then no fault
+  IF ~ProvablyInvalid(e.fault, e.site) \/ (e.allow /\ e.propsyntax /\ e.site.kind = "column") THEN "out-of-domain"
   ELSE IF Allowed(e.outcome) THEN
        (IF e.after = ProbeExpected THEN ""
         ELSE "a fragment of the rejected document leaked into the next result: " \o ModelDiff(ProbeExpected, e.after))
